@@ -371,4 +371,58 @@ theorem ofArray_toArray (f : Files) (n j : Nat) : ofArray (toArray f n) j = if j
   · simp [h, Array.getD]
   · simp [h, Array.getD]
 
+/-! ### restarts with other limits (segmented histories) -/
+
+theorem track_runSegs (s : St) (segs : List (Cfg × List Op)) (ht : Track s) : Track (runSegs s segs) := by
+  induction segs generalizing s with
+  | nil => exact ht
+  | cons x rest ih =>
+    obtain ⟨cfg, ops⟩ := x
+    exact ih _ (track_run cfg _ ops (track_reopen s))
+
+/-- no index above every segment's MaxBackups is ever touched -/
+theorem runSegs_frame (s : St) (segs : List (Cfg × List Op)) (j : Nat) (hj : ∀ x ∈ segs, x.1.maxBackups < j) :
+    (runSegs s segs).files j = s.files j := by
+  induction segs generalizing s with
+  | nil => rfl
+  | cons x rest ih =>
+    obtain ⟨cfg, ops⟩ := x
+    simp only [runSegs]
+    rw [ih _ (fun y hy => hj y (List.mem_cons_of_mem _ hy))]
+    rw [run_frame cfg (reopen s) ops j (hj (cfg, ops) (by simp))]
+    rfl
+
+theorem runSegs_pred (s : St) (segs : List (Cfg × List Op)) (Q : Bytes → Prop)
+    (hsmall : ∀ x ∈ segs, ∀ f : Bytes, f.length ≤ x.1.maxSize → Q f) (hw : ∀ w ∈ writesOfSegs segs, Q w)
+    (hs : ∀ i f, s.files i = some f → Q f) :
+    ∀ i f, (runSegs s segs).files i = some f → Q f := by
+  induction segs generalizing s with
+  | nil => exact hs
+  | cons x rest ih =>
+    obtain ⟨cfg, ops⟩ := x
+    simp only [runSegs]
+    apply ih
+    · intro y hy; exact hsmall y (List.mem_cons_of_mem _ hy)
+    · intro w hwm; exact hw w (by simp [writesOfSegs, hwm])
+    · exact run_pred cfg (reopen s) ops (track_reopen s) Q (hsmall (cfg, ops) (by simp))
+        (fun w hwm => hw w (by simp [writesOfSegs, hwm])) hs
+
+/-- as long as MaxBackups stays the same (`retained` reads the same slots), the suffix property spans restarts with
+    other MaxSize values -/
+theorem runSegs_suffix (B : Nat) (s : St) (segs : List (Cfg × List Op)) (hB : ∀ x ∈ segs, x.1.maxBackups = B) :
+    ∃ pre, retainedUpTo s.files B ++ (writesOfSegs segs).flatten = pre ++ retainedUpTo (runSegs s segs).files B := by
+  induction segs generalizing s with
+  | nil => exact ⟨[], by simp [runSegs, writesOfSegs]⟩
+  | cons x rest ih =>
+    obtain ⟨cfg, ops⟩ := x
+    have hb : cfg.maxBackups = B := hB (cfg, ops) (by simp)
+    obtain ⟨p1, h1⟩ := run_suffix cfg (reopen s) ops
+    obtain ⟨p2, h2⟩ := ih (run cfg (reopen s) ops) (fun y hy => hB y (List.mem_cons_of_mem _ hy))
+    simp only [retained, hb] at h1
+    have hre : (reopen s).files = s.files := rfl
+    rw [hre] at h1
+    refine ⟨p1 ++ p2, ?_⟩
+    simp only [runSegs, writesOfSegs, List.flatten_append]
+    rw [← List.append_assoc, h1, List.append_assoc, h2, List.append_assoc]
+
 end Rot
